@@ -1,0 +1,43 @@
+//go:build verif
+
+package storage
+
+// Exports for the verification harness (build tag verif; add-only): the file-name codec of the file storage.
+
+// VerifGenName is fsGenName; ok is false when fsGenName panics (invalid file type).
+func VerifGenName(fd FileDesc) (name string, ok bool) {
+	defer func() {
+		if recover() != nil {
+			name, ok = "", false
+		}
+	}()
+	return fsGenName(fd), true
+}
+
+// VerifGenOldName is fsGenOldName; ok is false when it panics (invalid file type).
+func VerifGenOldName(fd FileDesc) (name string, ok bool) {
+	defer func() {
+		if recover() != nil {
+			name, ok = "", false
+		}
+	}()
+	return fsGenOldName(fd), true
+}
+
+// VerifHasOldName is fsHasOldName.
+func VerifHasOldName(fd FileDesc) bool { return fsHasOldName(fd) }
+
+// VerifParseName is fsParseName.
+func VerifParseName(name string) (FileDesc, bool) { return fsParseName(name) }
+
+// VerifOpenCount returns the open-file counter of a file storage (negative: closed) and whether the in-process
+// lock is held; ok is false when s is not a file storage.
+func VerifOpenCount(s Storage) (open int, locked bool, ok bool) {
+	fs, isfs := s.(*fileStorage)
+	if !isfs {
+		return 0, false, false
+	}
+	fs.mu.Lock()
+	defer fs.mu.Unlock()
+	return fs.open, fs.slock != nil, true
+}
